@@ -41,13 +41,17 @@ class RINGToken(object):
     def __init__(self, name):
         self.name = name
 
-# TODO: Resolve unknown name 'cmp'
-
-    def __cmp__(self, other):
+    def __eq__(self, other):
         if isinstance(other, RINGToken):
             return eq(self.name, other.name)
         else:
             return eq(self.name, other)
+
+    def __ne__(self, other):
+        return not self.__eq__(other)
+
+    def __hash__(self):
+        return hash(self.name)
 
     def __str__(self):
         return self.name
